@@ -766,7 +766,7 @@ class BinaryOp(Expr):
             Operator.DIV: lambda a, b: limit(a / b),
             Operator.MOD: lambda a, b: limit(qb_mod(a, b)),
             Operator.INTDIV: lambda a, b: limit(qb_intdiv(a, b)),
-            Operator.EXP: lambda a, b: limit(a ** b),
+            Operator.EXP: lambda a, b: limit(float(a) ** float(b)),
         }[self.op](left, right)
 
         return result
